@@ -9,7 +9,7 @@ from ..terms import count_ops, from_json, ident, to_json, walk
 
 PROPERTY_ID = "C18"
 RULE = ("typed terms of every type from the typed grammar (type known by construction; all scalar functions "
-        "with arguments of every admissible kind, nested to depth 3) plus an exhaustive table: every one of "
+        "with arguments of every admissible kind, nested to depth 3; one case in twelve is large along the size ladder: concat/substring chains over strings and lists nested 5-65 deep, literals of 15-40 digits, lists of up to 1001 items) plus an exhaustive table: every one of "
         "the 33 built-in functions x every admissible argument-kind combination (literal, field, call, "
         "arithmetic, list) and every operator class. Oracle: infer_type(parse(text)) is None or the node "
         "class of the expected type, taken from the harness's copy of the OData return-type table "
@@ -229,10 +229,72 @@ def exhaustive_cases():
 TYPES = ["Int", "Real", "Str", "Bool", "DateTime", "Date", "Time"]
 
 
+@st.composite
+def scaled_cases(draw):
+    """Terms that are large along one dimension of the size ladder, with the type still known by
+    construction: chains of concat/substring over strings and lists nested 5-65 deep, integer and
+    decimal literals of 15-40 digits, lists of up to 1001 items."""
+    import random
+    from ..gen_syntax import LADDER
+    r = random.Random(draw(st.integers(0, 2 ** 30)))
+    kind = draw(st.sampled_from(["chain", "chain", "chain", "digits", "list"]))
+    if kind == "chain":
+        d = draw(st.sampled_from(LADDER["nest"]))
+        base_ty = draw(st.sampled_from(["Str", "ListInt", "ListStr"]))
+        t = r.choice(ARGS[base_ty])
+        for _ in range(d):
+            k = r.randrange(5)
+            if k == 0:
+                t = ("call", "concat", (), (t, r.choice(ARGS[base_ty])))
+            elif k == 1:
+                t = ("call", "concat", (), (r.choice(ARGS[base_ty]), t))
+            elif k == 2:
+                t = ("call", "substring", (), (t, r.choice(ARGS["Int"])))
+            elif k == 3:
+                t = ("call", "substring", (), (t, r.choice(ARGS["Int"]), r.choice(ARGS["Int"])))
+            elif base_ty == "Str":
+                t = ("call", r.choice(["tolower", "toupper", "trim"]), (), (t,))
+            else:
+                t = ("call", "concat", (), (t, t)) if d <= 9 else ("call", "substring", (), (t, ("lit", "int", "0")))
+        ty = "Str" if base_ty == "Str" else "List"
+        w = draw(st.integers(0, 3))
+        if w == 0:
+            t, ty = ("call", "length", (), (t,)), "Int"
+        elif w == 1:
+            t, ty = ("call", "indexof", (), (t, r.choice(ARGS[base_ty]))), "Int"
+        return {"term": to_json(t), "type": ty}
+    if kind == "digits":
+        n = draw(st.sampled_from(LADDER["digits"]))
+        digs = r.choice("123456789") + "".join(r.choice("0123456789") for _ in range(n - 1))
+        k = r.randrange(5)
+        if k == 0:
+            return {"term": to_json(("lit", "int", digs)), "type": "Int"}
+        if k == 1:
+            return {"term": to_json(("lit", "int", "-" + digs)), "type": "Int"}
+        if k == 2:
+            return {"term": to_json(("bin", "add", ("lit", "int", digs), ident("i1"))), "type": "Int"}
+        if k == 3:
+            return {"term": to_json(("lit", "float", digs[: n // 2] + "." + digs[n // 2:] + "5")), "type": "Real"}
+        return {"term": to_json(("lit", "int", r.choice([str(2 ** 63 - 1), str(-2 ** 63), str(2 ** 63), str(10 ** 18), str(10 ** 19)]))),
+                "type": "Int"}
+    n = draw(st.sampled_from(LADDER["list"]))
+    if r.random() < 0.5:
+        items = tuple(("lit", "int", str(i)) for i in range(n))
+    else:
+        items = tuple(("lit", "str", "s%d" % i) for i in range(n))
+    t = ("list", items)
+    w = draw(st.integers(0, 3))
+    if w == 0:
+        return {"term": to_json(("call", "length", (), (t,))), "type": "Int"}
+    if w == 1:
+        return {"term": to_json(("call", "concat", (), (t, t))), "type": "List"}
+    return {"term": to_json(t), "type": "List"}
+
+
 def plan(tier, seed, scale):
     K = 16
     tasks = [{"name": "exh", "kind": "exh"}]
-    total = int((10000 if tier == "quick" else 200000) * scale)
+    total = int((40000 if tier == "quick" else 400000) * scale)
     for i in range(K):
         tasks.append({"name": "rand-%d" % i, "kind": "rand", "n": max(total // K, 10), "shard": i})
     return tasks
@@ -262,6 +324,7 @@ def run_task(task, seed, acc):
         acc.extra["exhaustive"] = True
         acc.extra["functions_in_table"] = len(SIGS)
         return
-    strat = st.sampled_from(TYPES).flatmap(
+    small = st.sampled_from(TYPES).flatmap(
         lambda ty: gen_typed.expr(ty, 3, F_ALL).map(lambda t: {"term": to_json(t), "type": ty}))
+    strat = st.one_of(*([small] * 11 + [scaled_cases()]))
     hyp_run(strat, one, task["n"], seed * 1000 + task["shard"])
